@@ -71,7 +71,9 @@ DRIFT_SUFFIX = ('; all over a canonicalised program model (syntax normal forms, 
                 'drift (path formula of every raise / return / assignment / call compared by '
                 'truth table over the leaf tests), expression drift, interface drift (constants '
                 'by folded value, regexes by witness text, defaults, special methods, caching '
-                'decorators), memo-key completeness, ownership by call-graph closure')
+                'decorators), mutation drift, order drift (update/read pairs of one variable), '
+                'use-def and container-kind drift (reaching definitions), memo-key completeness, '
+                'ownership by call-graph closure')
 
 NOT_BUILT = 'check not built yet (see DESIGN.md section 4 for the planned structural rules)'
 NA = {}
